@@ -227,8 +227,10 @@ class PopenExecutor(concurrent.futures.Executor):
 
         # submitting new futures after join() would be bad,
         # so we make this internal and only call it from shutdown()
-        with contextlib.suppress(concurrent.futures.CancelledError):
-            for future in list(self._futures):
+        for future in list(self._futures):
+            # a cancelled or failed job (timeout, Popen error) must not end the wait for the others,
+            # its error is delivered to whoever asks for its result
+            with contextlib.suppress(Exception):
                 future.result()
 
 
